@@ -7,6 +7,7 @@ independent calls on separately built models: call_Fq(P) and call_kernel(S).
 from __future__ import annotations
 
 import math
+import os
 
 import numpy as np
 
@@ -30,7 +31,8 @@ REQUIRED_BUCKETS = {"quick": ["mode:0", "mode:>0", "beta:on", "beta:off", "dim:1
                               "cutoff>0", "retained_weights_do_not_sum_to_one",
                               "sequence:mode-changed-on-same-kernel", "contrast-matched:beta-on",
                               "magnetic-P", "magnetic-P:owns-volfraction", "precision:python-P-with-single-S",
-                              "precision:python-P-with-long-double-S"]}
+                              "precision:python-P-with-long-double-S", "P:hollow-plugin-python", "P:hollow-plugin-c-string",
+                              "P:hollow-plugin-c-code"]}
 REQUIRED_BUCKETS["thorough"] = REQUIRED_BUCKETS["quick"]
 SF = ["hardsphere", "hayter_msa", "squarewell", "stickyhardsphere"]
 _cache = {}
@@ -81,6 +83,11 @@ def gen_cases(tier, seed):
                    ("raspberry", "1d"), ("ellipsoid", "2d")]:
         cases.append({"id": "bigmesh/%s-%s" % (P, dim), "P": P, "S": SF[len(cases) % 4], "k": 700 + len(cases),
                       "seed": seed, "group": "big-" + P, "lane": "plain", "allmodes": False, "bigmesh": dim})
+    # hollow form factors supplied as plugins
+    for j_, var in enumerate(("python", "c-string", "c-code")):
+        for S in (SF if tier == "thorough" else [SF[(seed + j_) % 4], SF[(seed + j_ + 2) % 4]]):
+            cases.append({"id": "hollowplugin/%s@%s" % (var, S), "kind": "hollowplugin", "variant": var, "S": S, "k": len(cases),
+                          "seed": seed, "group": "hp-" + var, "lane": "plain"})
     # a pure-python form factor (always double) with a compiled structure factor in another precision
     for P in ["poly_gauss_coil", "broad_peak", "power_law"]:
         for S in (SF if tier == "thorough" else SF[:2] + [SF[(seed + len(P)) % 4]]):
@@ -107,6 +114,103 @@ def s_pars(S, rng):
         p["charge"], p["temperature"] = float(rng.uniform(5, 30)), float(rng.uniform(280, 340))
         p["concentration_salt"] = float(rng.uniform(0.0, 0.1))
     return p
+
+
+HOLLOW_HEAD = """r\"\"\"hollow sphere plugin (verification harness)\"\"\"
+from numpy import inf
+name = "%(name)s"
+title = "hollow sphere"
+description = "hollow sphere"
+category = "shape:sphere"
+parameters = [["sld", "1e-6/Ang^2", 1.0, [-inf, inf], "sld", ""], ["sld_solvent", "1e-6/Ang^2", 6.0, [-inf, inf], "sld", ""],
+              ["radius", "Ang", 30.0, [0, inf], "volume", "core radius"], ["thickness", "Ang", 12.0, [0, inf], "volume", "wall"]]
+"""
+HOLLOW_PY = HOLLOW_HEAD + """
+import numpy as np
+def _j(x):
+    return 3.0*(np.sin(x) - x*np.cos(x))/x**3
+def form_volume(radius, thickness):
+    return 4.18879020478639*(radius + thickness)**3
+def shell_volume(radius, thickness):
+    return 4.18879020478639*((radius + thickness)**3 - radius**3)
+def Iq(q, sld, sld_solvent, radius, thickness):
+    vo, vi = 4.18879020478639*(radius + thickness)**3, 4.18879020478639*radius**3
+    f = (sld - sld_solvent)*(vo*_j(q*(radius + thickness)) - vi*_j(q*radius))
+    return 1e-4*f**2
+Iq.vectorized = True
+"""
+HOLLOW_C = HOLLOW_HEAD + """
+source = ["lib/sas_3j1x_x.c"]
+form_volume = \"\"\"
+    return M_4PI_3*cube(radius + thickness);
+\"\"\"
+%(shell)s
+Iq = \"\"\"
+    const double vo = M_4PI_3*cube(radius + thickness);
+    const double vi = M_4PI_3*cube(radius);
+    const double f = (sld - sld_solvent)*(vo*sas_3j1x_x(q*(radius + thickness)) - vi*sas_3j1x_x(q*radius));
+    return 1e-4*f*f;
+\"\"\"
+"""
+SHELL_STRING = 'shell_volume = """\n    return M_4PI_3*(cube(radius + thickness) - cube(radius));\n"""'
+SHELL_CCODE = ('c_code = r"""\nstatic double shell_volume(double radius, double thickness)\n{\n'
+               '    return M_4PI_3*(cube(radius + thickness) - cube(radius));\n}\n"""')
+
+
+def run_hollow_plugin(case, rec):
+    """A hollow form factor supplied as a plugin (pure python; C with the shell volume as a string body or as a function in
+    the inline code block) inside P@S: prefactor volfraction/V_shell and S at volfraction*V_form/V_shell, against closed forms."""
+    from sasmodels import core as sascore, direct_model
+    kind, S = case["variant"], case["S"]
+    rng = core.rng_for(case["seed"], PROP, "hollow", kind, S, case["k"])
+    d = os.path.join(os.environ.get("RTM_SCRATCH", "/tmp"), "c07plugins")
+    os.makedirs(d, exist_ok=True)
+    name = "rtm07_hollow_%s" % kind.replace("-", "_")
+    path = os.path.join(d, name + ".py")
+    with open(path, "w") as f:
+        f.write(HOLLOW_PY % dict(name=name) if kind == "python" else
+                HOLLOW_C % dict(name=name, shell=SHELL_STRING if kind == "c-string" else SHELL_CCODE))
+    model = sascore.load_model(path + "@" + S, dtype="double", platform="dll")
+    Sm = sascore.load_model(S, dtype="double", platform="dll")
+    q = [np.exp(rng.uniform(math.log(0.004), math.log(0.25), 5))]
+    for rep in range(3):
+        R, t = float(rng.uniform(15, 60)), float(rng.uniform(4, 25))
+        sld, solv = float(rng.uniform(0.5, 4)), float(rng.uniform(5, 7))
+        sp = s_pars(S, rng)
+        sp["radius_effective"] = float(rng.uniform(30, 90))
+        scale, bg = float(rng.uniform(0.5, 2)), float(rng.uniform(0, 0.05))
+        pd = (rep == 2)
+        pts = [(t, 1.0)]
+        cp = dict(sp, sld=sld, sld_solvent=solv, radius=R, thickness=t, scale=scale, background=bg)
+        if pd:
+            cp.update(thickness_pd=0.15, thickness_pd_n=5, thickness_pd_nsigma=2.0)
+            mesh = direct_model.get_mesh(model.info, {kk: vv for kk, vv in cp.items()}, dim="1d")
+            col = mesh[[p_.name for p_ in model.info.parameters.call_parameters].index("thickness")]
+            pts = list(zip([float(x_) for x_ in col[1]], [float(x_) for x_ in col[2]]))
+        for ctl in ("radius_effective_mode", "structure_factor_mode"):
+            if ctl in model.info.parameters:
+                cp[ctl] = 0
+        W = sum(w_ for _t, w_ in pts)
+        j3 = lambda x: 3.0*(np.sin(x) - x*np.cos(x))/x**3
+        c43 = 4.0*math.pi/3.0
+        F2 = sum(w_*1e-4*((sld - solv)*(c43*(R + t_)**3*j3(q[0]*(R + t_)) - c43*R**3*j3(q[0]*R)))**2 for t_, w_ in pts)/W
+        Vf = sum(w_*c43*(R + t_)**3 for t_, w_ in pts)/W
+        Vs = sum(w_*c43*((R + t_)**3 - R**3) for t_, w_ in pts)/W
+        vf = sp["volfraction"]
+        Sq = np.asarray(direct_model.call_kernel(Sm.make_kernel(q), dict(sp, scale=1.0, background=0.0, volfraction=vf*Vf/Vs)), float)
+        exp = scale*vf/Vs*F2*Sq + bg
+        kern = model.make_kernel(q)
+        I = np.asarray(direct_model.call_kernel(kern, dict(cp)), float)
+        res = kern.results()
+        ok = core.close(I, exp, 1e-9, 1e-12*float(np.max(np.abs(exp))))
+        ctx = {"P": "hollow sphere plugin (%s)" % kind, "S": S, "pars": cp, "q": q[0]}
+        rec.check("equals_documented_combination", ok, None if ok else dict(ctx, observed=I, expected=exp, V_form=Vf, V_shell=Vs))
+        okv = abs(float(res["volume"]) - Vs) <= 1e-9*Vs and abs(float(res["volume_ratio"]) - Vf/Vs) <= 1e-9*Vf/Vs
+        rec.check("reported_volume_is_P_shell_volume", okv,
+                  None if okv else dict(ctx, reported=[res["volume"], res["volume_ratio"]], closed_form=[Vs, Vf/Vs]))
+        kern.release()
+    rec.bucket("P:hollow-plugin-" + kind)
+    rec.set_shape(("hollow-plugin", kind, S), True)
 
 
 def run_mixed(case, rec):
@@ -145,6 +249,8 @@ def run_mixed(case, rec):
 def run_case(case, rec):
     if case.get("kind") == "mixed":
         return run_mixed(case, rec)
+    if case.get("kind") == "hollowplugin":
+        return run_hollow_plugin(case, rec)
     from sasmodels import core as sascore, direct_model
     P, S, k = case["P"], case["S"], case["k"]
     pi, si = sas.info(P), sas.info(S)
